@@ -659,3 +659,122 @@ func TestVerifRace_C14_provider_early(t *testing.T) {
 			}
 		})
 }
+
+// ---- real-time twin: Close around the DISCONNECTED -> OFFLINE transition ----------------------------
+
+// TestVerifRace_C14_provider_offline: the provider is resumed over a datastore that holds a persisted average
+// prefix length, so it starts DISCONNECTED; the router never answers, so after OfflineDelay the connectivity
+// checker goes OFFLINE and runs the onOffline callbacks (the user's, then the provider's own). The user callbacks
+// take real time. Close is aimed at that transition. Whatever runs the callbacks belongs to the provider: when
+// Close returns, none may be executing and none may start afterwards.
+func TestVerifRace_C14_provider_offline(t *testing.T) {
+	vh.Run(t, vh.Spec{Prop: "C14", Unit: "provider_offline", Quick: 30, Thorough: 800, CostMs: 60, WallS: 240,
+		Rule:    "real time under -race: SweepingProvider resumed DISCONNECTED (persisted average prefix length 3-8) over a router that fails every lookup after 0-2 ms, OfflineDelay 0-15 ms (0 in every sixth case), user connectivity callbacks that take 2-10 ms of real time, 1-10 keys handed to StartProviding; Close aimed at OfflineDelay + U(-2 ms, callback time); verdict = Close returned, no connectivity callback is executing at the instant Close returns, none starts afterwards (watched for 3 x OfflineDelay + 30 ms), no goroutine started by the provider is left; non-trivial = the onOffline callback was executing when Close was invoked; distinct by (OfflineDelay, callback time, Close offset)",
+		Clauses: []string{"close-returns", "no-callback-in-flight-when-close-returns", "no-callback-after-close-returns", "no-goroutine-after-close", "close-again-returns"}},
+		func(c *vh.Case) {
+			r := c.R
+			offlineDelay := time.Duration(1000+r.Intn(14000)) * time.Microsecond
+			if c.Idx%6 == 5 {
+				offlineDelay = 0
+			}
+			hold := time.Duration(2000+r.Intn(8000)) * time.Microsecond
+			closeAfter := offlineDelay - 2*time.Millisecond + time.Duration(r.Int63n(int64(hold+2*time.Millisecond)))
+			if closeAfter < 0 {
+				closeAfter = 0
+			}
+			c.Set("offline_delay_us", offlineDelay.Microseconds())
+			c.Set("callback_takes_us", hold.Microseconds())
+			c.Set("close_after_us", closeAfter.Microseconds())
+			var base []vh.Goro
+			for i := 0; i < 2000; i++ {
+				if base = vc14.Owned(); len(base) == 0 {
+					break
+				}
+				runtime.Gosched()
+				if i > 100 {
+					time.Sleep(time.Millisecond)
+				}
+			}
+			c.Check(len(base) == 0, "baseline-clean", "instance-owned goroutines before construction: %v", vc14.Summary(base))
+			sim := vC14PvNewSim(r, 30, 20, func(string, string) {})
+			sim.routerLt = time.Duration(r.Intn(2000)) * time.Microsecond
+			sim.failFor = time.Hour
+			sim.abortLinger = time.Millisecond
+			selfH, _ := mh.Sum([]byte(fmt.Sprintf("c14pv-offline-%d", r.Int63())), mh.SHA2_256, -1)
+			dstore := vjds.New()
+			if err := dstore.Put(context.Background(), avgPrefixLenDatastoreKey, []byte{byte(3 + r.Intn(6))}); err != nil {
+				panic(err)
+			}
+			var cbInflight, cbStarted, offInflight atomic.Int64
+			cb := func(isOffline bool) func() {
+				return func() {
+					cbStarted.Add(1)
+					cbInflight.Add(1)
+					if isOffline {
+						offInflight.Add(1)
+					}
+					time.Sleep(hold)
+					if isOffline {
+						offInflight.Add(-1)
+					}
+					cbInflight.Add(-1)
+				}
+			}
+			addrs := []ma.Multiaddr{ma.StringCast("/ip4/9.9.9.9/tcp/4001")}
+			p, err := New(WithPeerID(peer.ID(selfH)), WithRouter(sim), WithMessageSender(sim), WithSelfAddrs(func() []ma.Multiaddr { return addrs }),
+				WithReprovideInterval(time.Hour), WithDatastore(dstore), WithOfflineDelay(offlineDelay),
+				WithConnectivityCallbacks(cb(false), cb(false), cb(true)))
+			if err != nil {
+				panic(err)
+			}
+			var keys []mh.Multihash
+			for i := 0; i < 1+r.Intn(10); i++ {
+				keys = append(keys, vC14PvKey(int64(c.Idx), i))
+			}
+			p.StartProviding(false, keys...)
+			time.Sleep(closeAfter)
+			offAtClose := offInflight.Load()
+			c.Set("offline_callback_executing_at_close", offAtClose > 0)
+			cerr := p.Close()
+			inflightAtReturn, startedAtReturn := cbInflight.Load(), cbStarted.Load()
+			c.Check(inflightAtReturn == 0, "no-callback-in-flight-when-close-returns", "Close returned while %d connectivity callback(s) run by the provider were still executing (OfflineDelay %v, callback takes %v, Close %v after construction, onOffline executing when Close was invoked: %v): Close did not wait for the goroutine running them\n%s", inflightAtReturn, offlineDelay, hold, closeAfter, offAtClose > 0, vC14PvStacksWith("TestVerifRace_C14_provider_offline.func1.1"))
+			c.Clause("close-returns")
+			if cerr != nil {
+				c.Logf("Close returned %v", cerr)
+			}
+			p.Close()
+			c.Clause("close-again-returns")
+			time.Sleep(3*offlineDelay + 30*time.Millisecond)
+			c.Check(cbStarted.Load() == startedAtReturn, "no-callback-after-close-returns", "%d connectivity callback(s) were started after Close had returned (OfflineDelay %v, Close %v after construction)", cbStarted.Load()-startedAtReturn, offlineDelay, closeAfter)
+			var left []vh.Goro
+			for i := 0; i < 3000; i++ {
+				if left = vc14.Owned(); len(left) == 0 {
+					break
+				}
+				runtime.Gosched()
+				if i > 100 {
+					time.Sleep(time.Millisecond)
+				}
+			}
+			c.Check(len(left) == 0, "no-goroutine-after-close", "goroutines of the provider still alive long after Close returned (Close %v after construction): %v\n%s", closeAfter, vc14.Summary(left), vc14.Dump(left, 4))
+			c.Obs("connectivity_callbacks_run", int(cbStarted.Load()))
+			c.Obs("router_calls", int(sim.nGCP.Load()))
+			if offAtClose > 0 {
+				c.Obs("closes_inside_offline_callback", 1)
+				c.Nontrivial(fmt.Sprintf("%v/%v/%v", offlineDelay, hold, closeAfter))
+			}
+		})
+}
+
+// vC14PvStacksWith renders the goroutines whose stack has a frame containing sub (witness only).
+func vC14PvStacksWith(sub string) string {
+	buf := make([]byte, 1<<22)
+	buf = buf[:runtime.Stack(buf, true)]
+	var out []string
+	for _, g := range vh.Goroutines(buf) {
+		if strings.Contains(g, sub) {
+			out = append(out, g)
+		}
+	}
+	return strings.Join(out, "\n\n")
+}
